@@ -11,26 +11,20 @@ RULE = ('2-5 real threads make the FIRST request of a fresh SingletonDecorator o
         'SignalSource, ReturnStatusSource, the fabric run event class, the live-output writer class) at the same time, and 2-3 threads '
         'construct ActiveObject() concurrently in a process-fresh state (which requests ActiveFabric, the fabric run event and the writer '
         'lazily); detsched switches threads at every bytecode boundary of SingletonDecorator.__call__ and every line of the constructors '
-        '(seeded random and PCT schedules); all returned objects must be the same object and later requests must return it too. '
-        'The first cases of every run are SYSTEMATIC: for a scenario with 2 (thorough: 2-3) requesting threads every schedule with at most '
-        '1 (thorough: 2) preemptions is enumerated depth-first (vt/sysx.py); counters systematic_* say how many schedules were run and '
-        'how many scenarios were enumerated completely within the bound. '
+        '(seeded random and PCT schedules); all returned objects must be the same object and later requests must return it too. ' +
+        sysx.RULE_TEXT % (1, 2) +
         'distinct_nontrivial = distinct context-switch sequences in which >= 2 threads were inside __call__ at the same time')
 CASES = {'quick': 1500, 'thorough': 100000}
-BUDGET = {'quick': 40, 'thorough': 300}
+BUDGET = {'quick': 150, 'thorough': 600}
 REQUIRE = {'runs': 800, 'overlapping_first_requests': 200, 'active_object_constructions': 100, 'systematic_schedules': 300, 'systematic_scenarios_exhausted': 6}
-SYS = {'quick': (16, 1, 1500, 25.0), 'thorough': (96, 2, 40000, 200.0)}     # systematic cases, preemption bound, schedule cap, seconds cap (per scenario)
+SYS = {'quick': (16, 1, 2500, 30.0), 'thorough': (32, 2, 100000, 150.0)}     # systematic cases, preemption bound, schedule cap, seconds cap (per scenario)
 ASSUME = ['fresh SingletonDecorator objects per run (same class as the module-level ones); module-level instances created at import are not re-raced']
 ANNOUNCE_CASES = True
 KLASSES = ['ActiveFabricSource', 'SignalSource', 'ReturnStatusSource', 'SourceThreadEvent', 'InstrumenationWriterClass']
 
 
 def run_case(ctx, n):
-  k = SYS[ctx.tier]
-  if n < k[0]:
-    sysx.explore(ctx, n, scenario, *k[1:])
-  else:
-    scenario(ctx, n)
+  sysx.run_case(ctx, n, SYS, scenario)
 
 
 def scenario(ctx, n):
